@@ -108,6 +108,15 @@ READER_EXCEPTIONS = {
 }
 
 
+def sshow_key(k):
+    """short rendering of a value key."""
+    if isinstance(k, tuple) and k and k[0] == "proj":
+        return "%s.%s" % (sshow_key(k[1]), ".".join(str(x).rsplit("::", 1)[-1].strip("{}' ") for x in k[2]))
+    if isinstance(k, tuple) and k and k[0] == "local":
+        return "_%s" % k[1]
+    return str(k)[:40]
+
+
 def positive_helpers(Y):
     """local bool functions whose `true` result implies the item is visible (e.g. DiffAssembler::process::seen)."""
     out = set()
@@ -196,6 +205,18 @@ def rule_b(R, ctx, rid="C17.b"):
                 bbs.setdefault(i, s["line"])
         for k, (bb, line) in enumerate(sorted(bbs.items())):
             sites.append((fn, bb, "content-read#%d" % k, "%s:%s" % (fn.file, line), None))
+    # the item whose content is read at a block: value key of the place in front of `.content`
+    def owners_at(fn, bb):
+        out = set()
+        for i, j, s_ in fn.stmts():
+            if i != bb:
+                continue
+            rv = s_["rv"]
+            pl = rv.get("ref") or rv.get("discr") or (rv.get("use") or {}).get("c") or (rv.get("use") or {}).get("m")
+            if isinstance(pl, dict) and F.place_has_field(pl, "Item.content"):
+                k_ = [ix for ix, x in enumerate(pl["p"]) if isinstance(x, str) and x.endswith("Item.content")][0]
+                out.add(mir_vkey(fn, {"c": {"l": pl["l"], "p": pl["p"][:k_]}}))
+        return out
     n = 0
     for fn, bb, site, loc, recv in sites:
         n += 1
@@ -203,6 +224,24 @@ def rule_b(R, ctx, rid="C17.b"):
         root = Y.root_of(fn).path
         ok = v.necessary_any(bb, vis_lit)
         why = "liveness literals on every path: %s" % [l.desc for l in v.lits if vis_lit(l)][:3]
+        if ok and recv is None:
+            # same item: the liveness test that decides this read looks at the item that is read, not at a neighbour
+            calls_by_bb = {c.bb: c for c in fn.calls()}
+            tested = set()
+            for l in v.guards(bb):
+                if vis_lit(l):
+                    t = simp(l.term)
+                    c = calls_by_bb.get(t[3]) if t[0] == "call" and len(t) > 3 else None
+                    if c is not None:
+                        tested |= {mir_vkey(fn, a) for a in c.args}
+            own = owners_at(fn, bb)
+            if tested and own and not (tested & own):
+                ok = False
+                why = ("the liveness test that decides this read looks at another item than the one whose content is read "
+                       "(tested %s, read %s): a deleted element is yielded, or a live one is skipped, whenever its neighbour's state differs" %
+                       ([sshow_key(k_) for k_ in sorted(tested, key=str)][:2], [sshow_key(k_) for k_ in sorted(own, key=str)][:2]))
+                R.ob(rid, fn, site, False, why, loc)
+                continue
         if not ok and recv is not None and any(term_has_call(recv, p) for p in filtered_ok):
             ok = True
             why = "item comes from a verified filtered iterator (%s)" % show(recv, 5)
